@@ -97,3 +97,21 @@ theorem copy_defaults (X : ImpGen.Ext) (b : ImpGen.GoRouteBuilder) (rp rc : List
 
 end TieImp
 end Restful
+
+namespace Restful
+namespace TieImp
+open Imp
+
+/-- `Build` on a builder without a function: the library logs and exits — no Route, whatever the template -/
+theorem build_route_no_function (X : ImpGen.Ext) (b : ImpGen.GoRouteBuilder) (hf : b.function = none) :
+    ImpGen.RouteBuilder_Build X (some b) = none := by
+  unfold ImpGen.RouteBuilder_Build
+  simp only [deref, bind, Option.bind, hf]
+  cases ImpGen.newPathExpression X b.currentPath with
+  | none => rfl
+  | some p =>
+    obtain ⟨pe, err⟩ := p
+    cases err <;> simp [failure, Alternative.failure]
+
+end TieImp
+end Restful
